@@ -132,8 +132,9 @@ CHECKS["C11"] = {
             "format). PROV-XML half: foreign texts from a specification-driven generator (any prov prefix or default namespace, "
             "inner declarations, subtype elements, xsi:type on elements, every literal spelling, prov:other, several entities in "
             "hadMember, re-binding bundles) and the shipped XML files are loaded, re-written in XML (force_types off/on) and in "
-            "JSON and re-loaded (strict content equal), and compared with the independent reader XmlSpec.read. The XML decoder "
-            "itself is modelled at value level only (partial).",
+            "JSON and re-loaded (strict content equal), and compared with the independent reader XmlSpec.read (partial: "
+            "stability of whole documents is decided per run; boundness of names and single-valuedness of formal attributes of "
+            "a loaded document are premises).",
     "design_ref": "DESIGN.md §5 C11, §10",
     "technique": "Coq well-formedness proof of the decoder + differential correspondence on foreign trees + spec-reader oracle",
 }
@@ -342,7 +343,12 @@ CHECKS["C11"]["text"] = CHECKS["C11"]["text"].replace(
     "record of the document it builds has an attribute dictionary keyed by pairwise different URIs whose value lists are sets "
     "(C11_json_decoded_shape: an invariant of add_attributes whichever way it ends, threaded through the whole reader — two of "
     "the premises of the round-trip theorems become theorems for loaded documents) and holds only stored-form values, each of "
-    "which is written and re-loaded as itself once its names are bound (C11_json_decoded_values_reload); wrapped values,")
+    "which is written and re-loaded as itself once its names are bound (C11_json_decoded_values_reload); the PROV-XML reader is "
+    "modelled above record level too (XmlReadDoc.xml_read_document: fresh document, prov:other skipped, bundleContent -> "
+    "document.bundle(identifier read in the element's scope) and its children, record elements) and tied per run to "
+    "ProvDocument.deserialize on whole foreign and library-written texts (document built with every manager table, or error "
+    "class); for every tree it accepts the bundles sit under pairwise different URIs and every record's dictionary has the set "
+    "shape (C11_xml_decoded_shape); wrapped values,")
 CHECKS["C02"]["text"] = CHECKS["C02"]["text"].replace(
     "Element-tree assembly (nsmap, child order, subtype element names, bundles) is not modelled (partial).",
     "Record level, element names: for every record class and attribute list the writer takes out exactly one prov:type pair "
